@@ -1,5 +1,6 @@
+use std::collections::HashSet;
 use std::ops::ControlFlow;
-use std::sync::{Arc, RwLock};
+use std::sync::{Arc, Mutex, RwLock};
 
 use async_lsp::lsp_types::{
     notification, request, CompletionOptions, CompletionParams, CompletionResponse,
@@ -16,7 +17,7 @@ use futures::future::{ready, BoxFuture};
 use tokio::task::{self};
 
 use ide::analysis::{Analysis, AnalysisHost};
-use ide::file_system::FileSystem;
+use ide::file_system::{FileId, FileSystem};
 
 use crate::vfs::{UrlExt, Vfs};
 use crate::{from_proto, to_proto};
@@ -26,6 +27,7 @@ pub struct Server {
     vfs: Arc<RwLock<Vfs>>,
     client: ClientSocket,
     diagnostic_version: i32,
+    published_files: Arc<Mutex<HashSet<FileId>>>,
 }
 
 impl Server {
@@ -58,6 +60,7 @@ impl Server {
             vfs: Arc::new(RwLock::new(Vfs::new())),
             client,
             diagnostic_version: 0,
+            published_files: Arc::default(),
         }
     }
 }
@@ -285,8 +288,20 @@ impl Server {
     fn update_diagnostics(&mut self) {
         let diag_version = self.bump_diagnostic_version();
         let mut client = self.client.clone();
+        let published_files = Arc::clone(&self.published_files);
         self.spawn_with_snapshot((), move |snap, _| {
-            for (file_id, diagnostics) in snap.analysis.diagnostics() {
+            let mut diagnostic_map = snap.analysis.diagnostics();
+
+            // clear the diagnostics of files that are no longer part of the workspace
+            let current_files: HashSet<FileId> = diagnostic_map.keys().copied().collect();
+            let mut published_files = published_files.lock().unwrap();
+            for file_id in published_files.difference(&current_files) {
+                diagnostic_map.entry(*file_id).or_default();
+            }
+            *published_files = current_files;
+            drop(published_files);
+
+            for (file_id, diagnostics) in diagnostic_map {
                 let line_index = snap.analysis.line_index(file_id);
                 let lsp_diags = diagnostics
                     .into_iter()
